@@ -56,8 +56,8 @@ func main() {
 	}
 	verifDir = env("VERIF_DIR", "/verif")
 	// the interpreter allocates short-lived immutable values at a high rate; the machine has memory to spare
-	debug.SetGCPercent(1000)
-	debug.SetMemoryLimit(24 << 30)
+	debug.SetGCPercent(400)
+	debug.SetMemoryLimit(12 << 30)
 	switch os.Args[1] {
 	case "check":
 		os.Exit(cmdCheck(os.Args[2:]))
